@@ -379,7 +379,7 @@ func TestCheck(t *testing.T) {
 		for _, lim := range []int{0, -1, 5, math.MaxInt, math.MaxInt - 1, 1 << 31, 1 << 32} {
 			restore := setLimit(lim)
 			r.Serial(func(w *vkit.W) {
-				for _, text := range ref.ConventionalTexts {
+				for _, text := range append(append([]string{}, ref.ConventionalTexts...), ref.Wrapped("1.2.3", "v1.2.3-rc.1+b")...) {
 					judge(Case{Kind: "text", Text: vkit.B(text), Limit: lim}, w)
 					w.EvalRandom(vkit.Hash64("W", text, strconv.Itoa(lim)), true)
 				}
